@@ -36,6 +36,8 @@ func c03SCIONWorld(r *simcore.Run) any {
 	scDrawFamily(r)
 	w := newSCIONWorld(r, srvOff, 1)
 	forwarder := tp.Bool(1, 3, "forwarder")
+	// every attempt opens a fresh socket: now and then the kernel hands out the port again
+	w.net.ReusePorts = tp.Bool(1, 4, "reuseports")
 	w.startServers(2, false, 0, nil, forwarder)
 	r.ProcDelayMaxNs = []int64{0, 20000, 2000000}[tp.Intn(3, "pdelay")]
 	plan := &w.net.Plan
